@@ -24,7 +24,7 @@ MAL = [b'2', b'5', b' ', b'-', b'x', b'\r', b'\n', b'\xff']
 POOL = [('250', 'ok'), ('250', 'first\r\nsecond'), ('550', '5.1.1 no such user'), ('354', 'go'),
         ('421', '4.4.2 bye\n'), ('250', ''), ('451', 'a\n\nb'), ('250', '-x\r\n-')]
 
-RULE = ('A: every code 200..599 x 4 texts; B: code 250 x every text (and codes 354/450/550/421 x every text of <= 3 units, <= 4 in thorough) over 8 units '
+RULE = ('A: every code 200..599 x 10 texts (incl. ESC look-alikes of classes 1, 3, 6 and malformed ones); B: code 250 x every text (and codes 354/450/550/421 x every text of <= 3 units, <= 4 in thorough) over 8 units '
         '{a,SP,CR,LF,-,e-acute,"2.1.0 ","5.0.0 "} up to 4 (quick) / 5 (thorough) units, first unit not white '
         'space; C: every sequence of 1..2 replies from a pool of 8 and every sequence of 3 from a pool of 3 (quick) / 8 (thorough), reading 1..k of them (exact consumption); '
         'all under ALL segmentations of the wire stream (continuation-merged). D: every byte string over '
@@ -100,8 +100,14 @@ def text_class(text):
 
 def check_roundtrip(replies, k, res, esc_false=False):
     """replies: list of (code, text) sent back to back; the receiver reads the first k."""
-    wire, sent = wire_of(replies, esc_false)
-    wire_k, _ = wire_of(replies[:k], esc_false)
+    try:
+        wire, sent = wire_of(replies, esc_false)
+        wire_k, _ = wire_of(replies[:k], esc_false)
+    except Exception as e:
+        # building or writing a reply with a legal code and text must not raise
+        return [({'part': 'roundtrip', 'kind': 'construct-or-send-raised', 'exception': type(e).__name__, 'text_class': text_class(replies[0][1])},
+                 'replies %r: Reply(...) / send() raised %r' % (replies, e),
+                 {'kind': 'roundtrip', 'replies': [[c, t] for c, t in replies], 'k': k, 'esc_false': esc_false})]
     rest = wire[len(wire_k):]
     expected = (tuple((c, norm(m) if m is not None else m) for c, m, e in sent[:k]), rest)
     ex = AllSegmentations(make_body(k, esc_false), wire)
@@ -286,7 +292,9 @@ def texts(maxu):
             yield n, ''.join(tup)
 
 
-TEXTS_A = ['ok', 'two\r\nlines', '2.1.0 esc', '5.0.0 wrongclass\n']
+TEXTS_A = ['ok', 'two\r\nlines', '2.1.0 esc', '5.0.0 wrongclass\n',
+           # tokens that look like an enhanced status code but are not one (class outside 2/4/5, too few or too many fields)
+           '3.1.4 is pi', '1.2.3 x', '6.0.0 y', '2.1 short', '4.7.1.9 long', '5.1.1']
 
 
 ELINES = [b'250-a', b'250 a', b'251-b', b'251 b', b'550-c', b'550 c', b'25x d', b'250-', b'250\tt']
